@@ -7,6 +7,10 @@ import os
 HERE = os.path.dirname(os.path.dirname(os.path.abspath(__file__)))
 
 CLAIMED = {
+ "C07": dict(engine="M", category="model_checking", design="DESIGN.md 3/C07",
+   technique="symbolic execution of MIR (one step from an arbitrary state) + z3; real-CLI verdict matrix as replay",
+   text="Partial: step lemmas, not the end-to-end statement. occurs(): for every Tag variant and every Tag-typed child position read from the enum declaration, no feasible path returns false without recursing into that child (closures of iterator adaptors followed). unify(): union(x,y) is reached only with x a variable, after occurs(x,y) returned false, on (reduce(left),reduce(right)) up to orientation; literal Ok otherwise only when the reduced operands are equal; Func/Func requires equal binding counts and recurses on ranges and on every zipped binding pair; Property/Property recurses on the payloads; everything else is Err. UnionFind::union writes exactly parents[rep(left)] = rep(right); reduce/reduce_mut loop bodies move to the parent and stop exactly at a fixed point; find and the free reduce() substitute inside every child. Values unbounded; one loop iteration / one recursion level per lemma.",
+   note="Trusted: MIR text, mirsym, z3/cvc5, structural equality summary for <Tag as PartialEq>::eq, child positions parsed from tag.rs. Outside: that the steps compose to 'accepts iff solvable', whole-run termination, order/name independence at program level. A failing lemma is reported only if the real oal-cli deviates on the 11-program verdict matrix (else exit 2)."),
  "C13": dict(engine="M", category="model_checking", design="DESIGN.md 3/C13",
    technique="symbolic execution of MIR (uninterpreted calls) + z3 over all paths; real-CLI replay",
    text="All non-cleanup paths of run/main (oal-cli), Processor::{load,eval}, ProcLoader/WebLoader::{parse,compile}, wasm process/compile are executed symbolically with every callee an uninterpreted function with symbolic Ok/Err outcome; z3 decides per path: SUCCESS <=> run Ok; Ok => exactly one write_file, it returned Ok, its buffer is to_string(into_openapi(..)) of this run and goes to the configured target, every inspected fallible step returned Ok; Err after write_file => write_file failed; loaders: Ok => oal_syntax::parse reported no error; compile/eval wrappers agree with the compiler's verdict; relational CLI-vs-playground query (same module set => both fail or same YAML term). Partial: diagnostics' text/location and the LSP clause are outside.",
@@ -38,7 +42,6 @@ PENDING = {
  "C01": "check under construction (engine T+M); not yet registered",
  "C03": "check under construction (engines K+M); not yet registered",
  "C04": "check under construction (engines K+M); not yet registered",
- "C07": "check under construction (engine M); not yet registered",
  "C15": "check under construction (engines K+M); not yet registered",
 }
 
